@@ -63,6 +63,10 @@ fn autonat_server() -> SimResult {
     begin();
     draw_policy();
     net::with_net(|n| n.faults = false);
+    if profile() != Profile::None && choose(4) == 0 {
+        // some substreams die while their protocol is being negotiated; the connection stays up
+        net::with_net(|n| n.stream_reset_permille = [50, 200][choose(2)]);
+    }
     let peer_max = 1 + choose(3);
     let global_max = 1 + choose(4);
     let period = Duration::from_secs(10 + choose(60) as u64);
